@@ -377,10 +377,94 @@ def axes11(repo):
     return AXES_TEXT % {"shift_src": "self.rwa", "shift": "rwa", "lemmas": "\n".join(lem)}, what
 
 
+def basis_discipline(repo):
+    """AbsSpectrumCalculator._calculate_aggregate: the basis-changing calls on the shared operators HH, DD, RR in source order.
+    Anything else done to them (another method, a store into them, handing them to another function) is untranslatable."""
+    fn = _src_of(repo + PATH, CLS + "_calculate_aggregate")
+    OBJ = {"HH": "OH", "DD": "OD", "RR": "OR"}
+    READ_METHODS = {"dipole_strength"}
+    GUARD = "relaxation_tensor is not None"
+    prog, assigned = [], {}
+
+    def expr_calls(node, guarded, in_loop):
+        for n in ast.walk(node):
+            if isinstance(n, ast.Call):
+                f = n.func
+                if isinstance(f, ast.Attribute) and isinstance(f.value, ast.Name) and f.value.id in OBJ:
+                    o, m = f.value.id, f.attr
+                    if m in READ_METHODS:
+                        continue
+                    if guarded is None or in_loop:
+                        raise Untranslatable("_calculate_aggregate: %s.%s called inside a loop or a branch other than the tensor guard" % (o, m))
+                    if m == "transform" and len(n.args) == 1 and not n.keywords and isinstance(n.args[0], ast.Name) and n.args[0].id in ("SS", "S1"):
+                        prog.append((OBJ[o], "MS" if n.args[0].id == "SS" else "MS1", guarded))
+                    elif m == "diagonalize" and not n.args and not n.keywords and o == "HH":
+                        prog.append(("OH", "MS", guarded))
+                    else:
+                        raise Untranslatable("_calculate_aggregate: %s" % ast.unparse(n)[:60])
+                else:
+                    fname = ast.unparse(f)
+                    for a in list(n.args) + [k.value for k in n.keywords]:
+                        if isinstance(a, ast.Name) and a.id in OBJ and fname != "isinstance":
+                            raise Untranslatable("_calculate_aggregate: %s handed to %s" % (a.id, fname))
+
+    def walk(stmts, guarded, in_loop):
+        for st in stmts:
+            if isinstance(st, ast.If):
+                expr_calls(st.test, guarded, in_loop)
+                if ast.unparse(st.test) == GUARD and guarded is False:
+                    walk(st.body, True, in_loop)
+                    walk(st.orelse, None, in_loop)         # the branches without a supplied tensor: no basis changes there
+                else:
+                    walk(st.body, guarded, in_loop)
+                    walk(st.orelse, guarded, in_loop)
+                continue
+            if isinstance(st, (ast.For, ast.While)):
+                walk(st.body, guarded, True)
+                walk(st.orelse, guarded, True)
+                continue
+            if isinstance(st, (ast.Assign, ast.AugAssign)):
+                tg = st.targets if isinstance(st, ast.Assign) else [st.target]
+                for t in tg:
+                    base = t
+                    while isinstance(base, (ast.Attribute, ast.Subscript)):
+                        base = base.value
+                    if isinstance(base, ast.Name) and base.id in OBJ and base is not t:
+                        raise Untranslatable("_calculate_aggregate: store into %s" % ast.unparse(t)[:40])
+                    if isinstance(t, ast.Name) and t.id in ("SS", "S1", "HH", "DD", "RR"):
+                        assigned.setdefault(t.id, []).append(ast.unparse(st.value))
+                expr_calls(st.value, guarded, in_loop)
+                continue
+            if isinstance(st, (ast.Expr, ast.Return)):
+                if st.value is not None:
+                    expr_calls(st.value, guarded, in_loop)
+                continue
+            if isinstance(st, ast.Pass):
+                continue
+            raise Untranslatable("_calculate_aggregate: statement %s" % type(st).__name__)
+    walk(_live(fn.body), False, False)
+    want = {"SS": ["HH.diagonalize()"], "S1": ["numpy.linalg.inv(SS)"], "HH": ["self.system.get_Hamiltonian()", "relaxation_hamiltonian"],
+            "DD": ["self.system.get_TransitionDipoleMoment()"], "RR": ["relaxation_tensor", "rate_matrix"]}
+    if assigned != want:
+        raise Untranslatable("_calculate_aggregate: SS / S1 / HH / DD / RR are bound to %r" % assigned)
+    items = "; ".join("(%s, %s, %s)" % (o, m, "true" if g else "false") for (o, m, g) in prog)
+    text = """
+(* ---- basis discipline, GENERATED from _calculate_aggregate: the basis-changing calls on HH, DD, RR in source order ---- *)
+Definition gen_transforms : list (tobj * tmat * bool) := [%s].
+Lemma gen_transforms_is_model : gen_transforms = purity_prog.
+Proof. reflexivity. Qed.
+(* hence every shared operator is handed back as it was found, with or without a supplied tensor (Proofs.C11.transform_back) *)
+Lemma gen_transforms_restore (R : StarRing) n (S S1 : @mat R) wt o A :
+  meq n (mmul n S S1) mid -> meq n (trun n S S1 wt gen_transforms o A) A.
+Proof. rewrite gen_transforms_is_model. apply purity_prog_restores. Qed.
+""" % items
+    return text, ["abscalculator.py:_calculate_aggregate (basis-changing calls on the Hamiltonian, dipole operator and supplied tensor)"]
+
+
 HEAD = """(* GENERATED on every run by harness/translate_c11.py from quantarhei/spectroscopy/abscalculator.py (and, for get_FrequencyAxis,
    by harness/translate_c13.py from quantarhei/core/time.py).  The arithmetic content below is the code's. *)
 From Coq Require Import ZArith List Bool Arith Lia ZifyNat Field.
-From QV Require Import Base.Alg Base.Sums Base.Util Base.Dft Model.C13 Proofs.C13 Proofs.C13gen Model.C11 Proofs.C11 Proofs.C11gen.
+From QV Require Import Base.Alg Base.Sums Base.Mat Base.Util Base.Dft Model.C13 Proofs.C13 Proofs.C13gen Model.C11 Proofs.C11 Proofs.C11gen.
 Import ListNotations.
 """
 
@@ -394,4 +478,5 @@ def static(repo):
     # the axis section continues the one of translate_c13 (same K, tp): gen_freq_axis_of is the code's get_FrequencyAxis
     a13 = a13.replace("End GenAxes.\n", "")
     a = a.replace("Section GenAxis11.\n  Variable K : Fld.\n  Variable tp : K.\n  Add Field KfGenAxis11 : (fth K).\n", "").replace("End GenAxis11.", "End GenAxes.")
-    return HEAD + l + a13 + a, wl + [w13[0]] + wa
+    b, wb = basis_discipline(repo)
+    return HEAD + l + a13 + a + b, wl + [w13[0]] + wa + wb
